@@ -3,7 +3,8 @@
 Heap view (as in contracts.legacy_heap): XP : Ref -> Opt[str] is the `_xpath` slot, written through object.__setattr__.  The functions here read
 the position slots and the registry but do not write them, so parent / parent_field / parent_index / is_attached_root are functions of the node:
   lparent(n), lpf(n), lpi(n), attached_root(n);   lkids(n) = what get_child_nodes() yields.
-  step(n)  =  "/@" + lpf(n).name + "[" + (str(lpi(n)) if lpi(n) else "0") + "]" + type(n).__name__
+  step(n)  =  "/@" + lpf(n).name + "[" + (str(lpi(n)) if lpi(n) else "0") + "]" + type(n).__name__        (opaque as xpath_step(n) in the large VCs; the
+                                                                                                           f-string is checked against this text where it is formatted)
   in_sub(k, n)      k == n  or  in_sub_any(k, lkids(n))              the subtree of n (reflexive), as a relation on objects
 Statements about *every* node of a subtree are opaque quantified predicates (pyvc.qpred), with skolem introduction and key elimination:
   spelled(X, s, n, px)   forall k. in_sub_any(k, s) ->  X[k] == (px if lparent(k) is n else X[lparent(k)]) + step(k)
@@ -58,6 +59,21 @@ def build():
         istr = z3.If(z3.Or(OINT.is_none(i), OINT.val(i) == 0), z3.StringVal("0"), int_str(OINT.val(i)))
         return z3.Concat(z3.StringVal("/@"), nv.fname(OFLD.val(lpf(n))), z3.StringVal("["), istr, z3.StringVal("]"), nv.cls_name(nv.cls_of(n)))
 
+    # In the large VCs the step text is the opaque function xpath_step(n); that the code formats exactly step(n) is a separate, small obligation
+    # at the f-string (xpath-format), so integer-to-string reasoning stays out of the quantifier instances.
+    step_u = z3.Function("xpath_step", REF.z3(), z3.StringSort())
+
+    def fstring(m, e):
+        if m.contract.qualname != "_set_xpath" or m.spec:
+            return None
+        full = m.ex_JoinedStr(e)
+        px, node = m.env.get("parent_xpath"), m.env.get("node")
+        if not (isinstance(px, VStr) and isinstance(node, VU) and node.sort == REF):
+            return None
+        m.ctx.check(full.term == z3.Concat(px.term, step(node.term)), f"{m.contract.key}/xpath-format", "model")
+        return VStr(z3.Concat(px.term, step_u(node.term)))
+
+    world.fstring_hooks = [fstring]
     in_sub = lib.fn("in_subtree", [REF, REF], BOOL)
     in_any = lib.fn("in_subtree_of_any", [REF, SR], BOOL)
     in_sub.rule("in_subtree-def", 1, "always")(lambda a, p: z3.Or(a[0] == a[1], in_any.t(a[0], lkids.t(a[1]))))
@@ -68,7 +84,7 @@ def build():
     sval = lambda o: OSTR.val(o)
     spelled = QPred("xpath_spelled_below", [XM.z3(), SR.z3(), REF.z3(), z3.StringSort()], REF.z3(),
                     lambda a, k: z3.Implies(in_any.t(k, a[1]),
-                                            xget(a[0], k) == some_s(z3.Concat(z3.If(par(k) == a[2], a[3], sval(xget(a[0], par(k)))), step(k)))))
+                                            xget(a[0], k) == some_s(z3.Concat(z3.If(par(k) == a[2], a[3], sval(xget(a[0], par(k)))), step_u(k)))))
     frame = QPred("xpath_unchanged_outside", [XM.z3(), XM.z3(), SR.z3(), REF.z3()], REF.z3(),
                   lambda a, k: z3.Implies(z3.And(z3.Not(in_any.t(k, a[2])), k != a[3]), xget(a[0], k) == xget(a[1], k)))
     parents = QPred("parents_inside", [SR.z3(), REF.z3()], REF.z3(),
@@ -89,7 +105,7 @@ def build():
                "lparent": lambda n: VOpt(lparent(nv.ref(n)), OREF),
                "attached_root": lambda n: VBool(att_root(nv.ref(n))),
                "lpf": lambda n: VOpt(lpf(nv.ref(n)), OFLD), "lpi": lambda n: VOpt(lpi(nv.ref(n)), OINT),
-               "step": lambda n: VStr(step(nv.ref(n))),
+               "step": lambda n: VStr(step_u(nv.ref(n))),
                "cname": lambda n: VStr(nv.cls_name(nv.cls_of(nv.ref(n)))),
                "mget": lambda mp, k: VOpt(z3.Select(mp.term, mp.sort.key.coerce(k).term), mp.sort.opt),
                "spelled": lambda X, s_, n, px: VBool(spelled.t(X.term, SR.coerce(s_).term, nv.ref(n), STR.coerce(px).term)),
